@@ -66,6 +66,14 @@ def cd_epoch_task(T, tag, sparse, focus, j=1, zero_col=False, pshard=None):
                 lc = df.get_lipschitz(X, y)
                 lc0 = lc.copy()
                 kern(X, y, w, Xw, lc, df, pen, np.array([j]))
+            if focus == 'storage':
+                # the dense kernel from the same start on the same (pattern-restricted) design: storage independence (C10)
+                dkern = symrun.get(ACD, '_cd_epoch')
+                wd, Xwd = w0.copy(), Xw0.copy()
+                dfd = Quadratic()
+                dfd.initialize(X, y)
+                dkern(X, y, wd, Xwd, dfd.get_lipschitz(X, y), dfd, pen, np.array([j]))
+                return dict(w=w, Xw=Xw, w0=w0, Xw0=Xw0, o0=0., o1=0., lc=lc, lc0=lc0, wd=wd, Xwd=Xwd)
             if focus == 'descent':
                 d0, p0 = df.value(y, w0, Xw0), pen.value(w0)
                 d1, p1 = df.value(y, w, Xw), pen.value(w)
@@ -83,6 +91,9 @@ def cd_epoch_task(T, tag, sparse, focus, j=1, zero_col=False, pshard=None):
                 for i in range(2):
                     cs.append((f'Xw-Xw-preserved[{i}]', [],
                                L(Xw[i]) - (Xz[i][0] * L(w[0]) + Xz[i][1] * L(w[1])) == e.z[i]))
+            if focus == 'storage':
+                cs.append(('sparse-epoch==dense-epoch(w)', [], z3.And(*[L(w[k]) == L(out['wd'][k]) for k in range(2)])))
+                cs.append(('sparse-epoch==dense-epoch(Xw)', [], z3.And(*[L(Xw[i]) == L(out['Xwd'][i]) for i in range(2)])))
             if focus == 'frame':
                 cs.append(('only-w[ws]-changes', [], L(w[1 - j]) == e.w[1 - j]))
                 cs.append(('lipschitz-untouched', [], z3.And(*[L(out['lc'][k]) == L(out['lc0'][k]) for k in range(2)])))
@@ -182,19 +193,22 @@ def replay_cd_epoch(args, model):
     return dict(confirmed=bool(probs), detail='; '.join(probs) or f'contract holds natively (obj {o0} -> {o1})', inputs=inputs)
 
 
-FOCUS_PROP = {'inv': ['C01', 'C05', 'C19', 'C13', 'C20'], 'frame': ['C18'], 'descent': ['C03'], 'feas': ['C04'], 'zero-col': ['C19']}
+FOCUS_PROP = {'inv': ['C01', 'C05', 'C19', 'C13', 'C20'], 'frame': ['C18'], 'descent': ['C03'], 'feas': ['C04'], 'zero-col': ['C19'],
+              'storage': ['C10']}
 for _tag in PENS:
     for _sp in (False, True):
         for _f, _props in FOCUS_PROP.items():
-            if _f in ('inv', 'frame') and _tag not in ('L1[positive=False]', 'WeightedL1[positive=True]'):
+            if _f in ('inv', 'frame', 'storage') and _tag not in ('L1[positive=False]', 'WeightedL1[positive=True]'):
                 continue        # data-flow clauses do not depend on the penalty: two representatives
+            if _f == 'storage' and not _sp:
+                continue
             if _f == 'feas' and _tag in ('L1[positive=False]', 'L1_plus_L2[positive=False]', 'WeightedL1[positive=False]',
                                          'MCPenalty[positive=False]'):
                 continue
             if _f == 'zero-col' and _tag not in ('L1[positive=False]', 'MCPenalty[positive=False]', 'IndicatorBox'):
                 continue
             nm = f"anderson_cd:{'_cd_epoch_sparse' if _sp else '_cd_epoch'}[{_tag}]/{_f}"
-            _tier = 'thorough' if (_sp and _f not in ('inv', 'zero-col')) or (_f == 'descent' and 'MCP' in _tag) else 'quick'
+            _tier = 'thorough' if (_sp and _f not in ('inv', 'zero-col', 'storage')) or (_f == 'descent' and 'MCP' in _tag) else 'quick'
             if _sp and _f == 'descent' and _tier == 'thorough':
                 # 16 CSC patterns x a slow nonlinear descent query: one worker process per 2 patterns
                 for _k in range(8):
